@@ -24,6 +24,16 @@ if os.environ.get("ODC_GEO_REPO"):
 from harness.common import Run  # noqa: E402
 
 
+def _gentie_hook(R) -> None:
+    """source tie (harness/gentie.py): regenerate Lean definitions from the Python source and check the tie
+    theorems; a no-op for properties not listed in gentie.GENTIE_READY"""
+    try:
+        from harness import gentie
+    except Exception:  # pylint: disable=broad-except
+        return
+    gentie.hook(R)
+
+
 def main() -> int:
     ap = argparse.ArgumentParser()
     ap.add_argument("prop")
@@ -39,10 +49,15 @@ def main() -> int:
 
     if args.replay:
         rec = json.loads(Path(args.replay).read_text())
+        if str(rec.get("key", "")).startswith("source-tie:"):  # replay written by the source tie (harness/gentie.py)
+            from harness import gentie
+
+            return gentie.replay(R, rec)
         rc = mod.replay(R, rec)
         return rc
 
     try:
+        _gentie_hook(R)
         R.proof_stage()
     except Exception:  # pylint: disable=broad-except
         traceback.print_exc()
